@@ -6,7 +6,7 @@ Nothing of /repo is copied by hand: every function body in the emitted unit is t
 in the working tree at extraction time, modified only at the rewrite points listed in
 `RULES_DOC` (reported in the evidence) and at the splice points named by the contract store.
 """
-import os, re, sys, hashlib
+import json, os, re, sys, hashlib
 sys.path.insert(0, os.path.dirname(__file__))
 from rustlex import lex, items, impl_key, match_close, Tok
 
@@ -647,6 +647,15 @@ def find_loops(toks):
             res.append((k, body))
     return res
 
+_EXITS_SEEN = {}
+_EXITS = None
+def _exits():
+    global _EXITS
+    if _EXITS is None:
+        try: _EXITS = json.load(open(os.path.join(VERIF, "contracts", "exits.json")))
+        except Exception: _EXITS = {}
+    return _EXITS
+
 def find_closures(toks):
     """closures introduced by `|` after one of ( , = move return  or  `||`"""
     res = []
@@ -1135,6 +1144,21 @@ def emit_fn(out, u, fs, rules_used):
                 ins.append((off(body[a]), "replace", (off(body[b]) + len(body[b].text), hdr + " {" + let_stmt)))
                 ins.append((off(body[e]), "replace", (off(body[e]), " }")))
             rules_used.add("R5")
+    # exit-structure guard: a hint placed at the end of the function / after or at the end of a loop presumes the exits the
+    # function had when the hint was written.  If a change adds or removes a `return` or `break`, such a hint may no longer
+    # cover every exit, and the failing postcondition at the new exit would be a false alarm: the function is then a lost
+    # anchor (UNDECIDED; the bounded stand-in takes over), not a violation.  contracts/exits.json records the counts of the
+    # unchanged tree (tools/gen_exits.py) for the functions that have such hints.
+    if any(w[0].split(" ||| ")[0].split()[0] in ("fn_end",) or re.match(r"loop\s+\d+\s+(after|end)", w[0].split(" ||| ")[0]) for w in fs.ats):
+        nret = sum(1 for t_ in body if t_.kind == "ident" and t_.text == "return")
+        nbrk = sum(1 for t_ in body if t_.kind == "ident" and t_.text == "break")
+        key_ = "%s::%s" % (fs.file, fs.name)
+        if os.environ.get("VERIF_GEN_EXITS"):
+            _EXITS_SEEN[key_] = [nret, nbrk]
+        else:
+            exp = _exits().get(key_)
+            if exp is not None and exp != [nret, nbrk]:
+                raise LostAnchor("fn %s: exit structure changed (%d return / %d break, recorded %d / %d): the hints placed at its end presume the recorded exits" % (fs.name, nret, nbrk, exp[0], exp[1]))
     ncl = fs.opts.get("closures")
     if ncl is not None and len(find_closures(body)) != 0 and int(ncl) != len(find_closures(body)):
         raise LostAnchor("fn %s: expected %s closures, found %d" % (fs.name, ncl, len(find_closures(body))))
